@@ -12,7 +12,7 @@ def _slug(s):
 
 
 def write(prop, f, r, repo, tier):
-    rdir = os.path.join(VERIF, 'build', 'replay-scratch') if os.environ.get('VERIF_NOEVIDENCE') else os.path.join(VERIF, 'replay')
+    rdir = os.path.join(os.environ.get('VERIF_BUILD') or os.path.join(VERIF, 'build'), 'replay-scratch') if os.environ.get('VERIF_NOEVIDENCE') else os.path.join(VERIF, 'replay')
     os.makedirs(rdir, exist_ok=True)
     path = os.path.join(rdir, '%s-%s-%s.json' % (prop, _slug(f['fn']), _slug(f['label'])))
     doc = {
